@@ -1,0 +1,110 @@
+//go:build verif
+
+package vgirpc
+
+import "time"
+
+// Verification hooks for property C29 (sticky sessions). Add-only; compiled
+// only with -tags verif.
+
+func init() {
+	verifConstProviders = append(verifConstProviders, func() []VerifConst {
+		// AAD / registry-partition encodings of a caller, recovered by probing
+		// the real functions with an empty domain and principal.
+		authEmpty := &AuthContext{Authenticated: true}
+		aadAuth := string(stateTokenAad(authEmpty)) // prefix | tag | sep
+		pkAuth := principalKeyFromAuth(authEmpty)   // sep
+		return []VerifConst{
+			verifBytes("c29_aad_anon", string(stateTokenAad(nil))),
+			verifBytes("c29_aad_auth_pre", aadAuth[:len(aadAuth)-1]),
+			verifBytes("c29_aad_sep", aadAuth[len(aadAuth)-1:]),
+			verifBytes("c29_pkey_anon", principalKeyFromAuth(nil)),
+			verifBytes("c29_pkey_sep", pkAuth),
+			verifNum("c29_default_ttl_s", stickyDefaultTTLSec),
+		}
+	})
+}
+
+// VerifStickyQuietReaper slows the background reaper so that evictions happen
+// only where the harness drives them (inline on get, or VerifStickyReap).
+// Must be called after EnableSticky and before the first request.
+func VerifStickyQuietReaper(h *HttpServer) {
+	if h.stickyRegistry != nil {
+		h.stickyRegistry.reaperTick = 24 * time.Hour
+	}
+}
+
+// VerifStickyShift moves every live entry's expiry d into the past, which is
+// indistinguishable from the clock having advanced by d.
+func VerifStickyShift(h *HttpServer, d time.Duration) {
+	r := h.stickyRegistry
+	if r == nil {
+		return
+	}
+	r.mu.Lock()
+	for _, e := range r.entries {
+		e.expiresAt = e.expiresAt.Add(-d)
+	}
+	r.mu.Unlock()
+}
+
+// VerifStickyReap runs one reaper sweep at the current time.
+func VerifStickyReap(h *HttpServer) int {
+	if h.stickyRegistry == nil {
+		return 0
+	}
+	return h.stickyRegistry.drainExpired(time.Now())
+}
+
+// VerifStickyLive returns the number of live registry entries.
+func VerifStickyLive(h *HttpServer) int {
+	r := h.stickyRegistry
+	if r == nil {
+		return 0
+	}
+	r.mu.Lock()
+	defer r.mu.Unlock()
+	return len(r.entries)
+}
+
+// VerifStickyEntry returns an opaque handle on the session entry currently
+// bound to the request (resumed or just opened), or nil.
+func VerifStickyEntry(ctx *CallContext) any {
+	if ctx == nil || ctx.stickySink == nil || ctx.stickySink.entry == nil {
+		return nil
+	}
+	return ctx.stickySink.entry
+}
+
+// VerifStickyEntryLocked reports whether the per-session mutex of the entry
+// handle is currently held.
+func VerifStickyEntryLocked(e any) bool {
+	ent, ok := e.(*sessionEntry)
+	if !ok || ent == nil {
+		return false
+	}
+	if ent.lock.TryLock() {
+		ent.lock.Unlock()
+		return false
+	}
+	return true
+}
+
+// VerifStickyEntryResolvable reports whether the entry handle is currently
+// registered on h, unexpired, and bound to auth's principal key. The harness
+// uses it only to choose how long to wait before declaring a request blocked.
+func VerifStickyEntryResolvable(h *HttpServer, e any, auth *AuthContext) bool {
+	ent, ok := e.(*sessionEntry)
+	r := h.stickyRegistry
+	if !ok || ent == nil || r == nil {
+		return false
+	}
+	r.mu.Lock()
+	defer r.mu.Unlock()
+	for _, x := range r.entries {
+		if x == ent {
+			return !ent.expiresAt.Before(time.Now()) && ent.principalKey == principalKeyFromAuth(auth)
+		}
+	}
+	return false
+}
